@@ -13,6 +13,7 @@ from __future__ import annotations
 import ast
 import collections.abc
 import copy
+import dataclasses
 import inspect
 import numbers
 import sys
@@ -67,7 +68,8 @@ REQUIRED_COUNTERS = [
     "run_calib_invalid_rejected", "sweep_undeclared_seq", "sweep_undeclared_dask", "sweep_disabled_seq",
     "sweep_disabled_dask", "probe_events", "key_class_truncate", "key_class_edit", "key_class_abbrev",
     "entry_set_applied", "shared_name_pipelines", "sweep_disabled_namesake", "copy_original_unchanged",
-    "copy_points_checked", "sweep_valid_seq", "sweep_valid_dask",
+    "copy_points_checked", "sweep_valid_seq", "sweep_valid_dask", "subfield_set_applied",
+    "obs_reuse_valid_accepted", "obs_reuse_refused_after_accepted", "obs_reuse_accepted_after_refused",
 ]
 TIMEOUT = {"quick": 600, "thorough": 3000}
 LEVEL_TEXT = ("Exploration by runtime monitoring: thousands (quick) to tens of thousands (thorough) of (entry point, key, "
@@ -97,6 +99,13 @@ CHAR_APD = {"avalanche_gain": ("float", 1.0, 1000.0), "pixel_reset_voltage": ("f
             "common_voltage": ("float", -3.0, 3.0)}
 APD_LINKED = ("avalanche_gain", "pixel_reset_voltage", "common_voltage")
 SECTIONS = ("geometry", "environment", "characteristics")
+# a field may be configured as a structured value (documentation: multi-wavelength environment
+# `wavelength: {cut_on, cut_off, resolution}`); its components are then settings of their own, addressed with one more
+# key component.  Disjoint ranges keep cut_on < cut_off whatever the order of the assignments.
+STRUCTURED = {("environment", "wavelength"): {"cut_on": ("float", 100.0, 500.0), "cut_off": ("float", 600.0, 2000.0),
+                                              "resolution": ("int", 1, 50)}}
+SUBFIELD = "detector-subfield"
+DET = ("detector-field", SUBFIELD)
 
 
 def catalogue(kind: str) -> dict:
@@ -121,8 +130,41 @@ def read_fields(detector) -> dict:
                 continue
             if callable(val):
                 continue
-            out[f"detector.{sec}.{name}"] = copy.deepcopy(val)
+            _flatten_field(out, f"detector.{sec}.{name}", val)
     return out
+
+
+def is_structured(val) -> bool:
+    """A settings object of its own (dataclass instance / plain object with public attributes), not a value."""
+    if isinstance(val, (type, np.ndarray, np.generic, numbers.Number, str, bytes, list, tuple, dict, set, frozenset)):
+        return False
+    if val is None or callable(val):
+        return False
+    mod = type(val).__module__ or ""
+    if mod.split(".")[0] in ("builtins", "numpy", "xarray", "pandas", "astropy", "collections", "pathlib"):
+        return False
+    return dataclasses.is_dataclass(val) or bool(getattr(val, "__dict__", None))
+
+
+def sub_names(val) -> list:
+    return [n for n in dir(val) if not n.startswith("_") and not callable(inspect.getattr_static(val, n, None))]
+
+
+def _flatten_field(out, key, val, depth=0):
+    """A structured field is shown component by component (each component is addressable by a key)."""
+    if depth < 2 and is_structured(val):
+        out[key + "/<type>"] = type(val).__name__
+        for name in sub_names(val):
+            try:
+                sub = getattr(val, name)
+            except Exception as exc:  # noqa: BLE001
+                out[f"{key}.{name}"] = f"<raises {type(exc).__name__}>"
+                continue
+            if callable(sub):
+                continue
+            _flatten_field(out, f"{key}.{name}", sub, depth + 1)
+    else:
+        out[key] = copy.deepcopy(val)
 
 
 def probe(detector, **kwargs) -> None:
@@ -367,12 +409,20 @@ def gen_pipeline(rng, mapping_names=False, shared_names=False) -> dict:
     return pspec
 
 
-def valid_keys(kind: str, pspec: dict) -> dict:
+def structured_fields(dspec) -> list:
+    """(section, field) pairs that the specification configures as a structured value."""
+    return [(sec, f) for (sec, f) in STRUCTURED if isinstance((dspec or {}).get(sec, {}).get(f), dict)]
+
+
+def valid_keys(kind: str, pspec: dict, dspec: dict | None = None) -> dict:
     """key -> info.  The oracle's notion of 'existing setting', built from the specification only."""
     out = {}
     for sec, fields in catalogue(kind).items():
         for f, spec in fields.items():
             out[f"detector.{sec}.{f}"] = {"cls": "detector-field", "sec": sec, "field": f, "spec": spec}
+    for sec, f in structured_fields(dspec):
+        for sub, spec in STRUCTURED[(sec, f)].items():
+            out[f"detector.{sec}.{f}.{sub}"] = {"cls": SUBFIELD, "sec": sec, "field": f, "sub": sub, "spec": spec}
     for g, models in pspec.items():
         for m in models:
             out[f"pipeline.{g}.{m['name']}.enabled"] = {"cls": "enabled-flag", "group": g, "model": m["name"]}
@@ -504,6 +554,9 @@ def mutate_keys(rng, kind, pspec, vkeys) -> list:
     argkeys = [k for k in keys if vkeys[k]["cls"] == "model-argument"]
     if argkeys and not any(k in argkeys for k in bases):
         bases.append(rng.choice(argkeys))
+    subkeys = [k for k in keys if vkeys[k]["cls"] == SUBFIELD]
+    if subkeys and not any(k in subkeys for k in bases):
+        bases.append(rng.choice(subkeys))
     for k in bases:
         parts = k.split(".")
         ci = rng.randrange(len(parts))
@@ -552,6 +605,17 @@ def mutate_keys(rng, kind, pspec, vkeys) -> list:
     out.append(("unknown-field", "detector.geometry.rows"))
     out.append(("unknown-field", "detector.environment.temperatur"))
     out.append(("unknown-field", f"detector.{rng.choice(SECTIONS)}.{rng.choice(EXT[:2])}"))
+    # components of a structured value: unknown component names; the components of a field that this configuration
+    # holds as a plain value (or not at all) name nothing
+    for (sec, f), subs in STRUCTURED.items():
+        sub = rng.choice(list(subs))
+        if f"detector.{sec}.{f}.{sub}" in vkeys:
+            out.append(("unknown-subfield", f"detector.{sec}.{f}.{sub}{rng.choice(['s', '_nm', '2'])}"))
+            out.append(("unknown-subfield", f"detector.{sec}.{f}.{rng.choice(['step', 'cut', 'width'])}"))
+            other = rng.choice([x for x in catalogue(kind)[sec] if x != f])
+            out.append(("subfield-of-plain-field", f"detector.{sec}.{other}.{sub}"))
+        else:
+            out.append(("subfield-of-plain-field", f"detector.{sec}.{f}.{sub}"))
     for k in ("", ".", "..", " ", "detector.", "pipeline."):
         out.append(("empty", k))
     seen, res = set(), []
@@ -651,11 +715,12 @@ _UNSET = object()
 
 def read_direct(pr, info):
     """Read the addressed setting through the public object API (not through Processor.get)."""
-    if info["cls"] == "detector-field":
+    if info["cls"] in DET:
         try:
-            return getattr(getattr(pr.detector, info["sec"]), info["field"])
+            v = getattr(getattr(pr.detector, info["sec"]), info["field"])
         except ValueError:
             return _UNSET  # documented: reading a field that was never specified raises
+        return getattr(v, info["sub"]) if info["cls"] == SUBFIELD else v
     m = find_model(pr.pipeline, info["group"], info["model"])
     if info["cls"] == "enabled-flag":
         return m.enabled
@@ -663,6 +728,16 @@ def read_direct(pr, info):
     for p in info.get("path", ()):
         v = v[p]
     return v
+
+
+def sub_container(pr, info):
+    """The structured value that holds the addressed component in the current state, or None (the field was
+    re-assigned as a whole with a plain value)."""
+    try:
+        v = getattr(getattr(pr.detector, info["sec"]), info["field"])
+    except Exception:  # noqa: BLE001
+        return None
+    return v if is_structured(v) and info["sub"] in sub_names(v) else None
 
 
 def entry_container(pr, info):
@@ -700,13 +775,18 @@ def grew(s0: dict, s1: dict) -> list:
 
 def allowed_public(kind, key, info, names) -> set:
     out = {key} | {n for n in names if n.startswith((key + ".", key + "/"))}  # the setting and what it contained
-    if info["cls"] == "detector-field":
+    if info["cls"] in DET:
         sec = info["sec"]
         settable = set(catalogue(kind)[sec])
         pre = f"detector.{sec}."
-        out |= {n for n in names if n.startswith(pre) and n[len(pre):] not in settable}
+        # derived attributes of the same object: names whose first component is no settable field
+        out |= {n for n in names if n.startswith(pre) and n[len(pre):].split(".")[0].split("/")[0] not in settable}
         if info["field"] in APD_LINKED:
             out |= {pre + f for f in APD_LINKED}
+        if info["cls"] == SUBFIELD:  # derived attributes of the structured value itself
+            sub_pre = f"{pre}{info['field']}."
+            own = set(STRUCTURED[(sec, info["field"])])
+            out |= {n for n in names if n.startswith(sub_pre) and n[len(sub_pre):].split(".")[0].split("/")[0] not in own}
     return out
 
 
@@ -744,13 +824,28 @@ def expand_tuple_refs(snap: dict) -> dict:
     return snap
 
 
+def make_detector(dspec):
+    """build.make_detector + the structured layouts of a field (given as a mapping in the specification / YAML)."""
+    todo = structured_fields(dspec)
+    if not todo:
+        return build.make_detector(dspec)
+    from pyxel.detectors import WavelengthHandling
+    spec = copy.deepcopy(dspec)
+    for sec, f in todo:
+        spec[sec][f] = {("environment", "wavelength"): WavelengthHandling}[(sec, f)](**dspec[sec][f])
+    return build.make_detector(spec)
+
+
 def make_processor(dspec, pspec):
     from pyxel.pipelines import Processor
-    return Processor(detector=build.make_detector(dspec), pipeline=build.make_pipeline(pspec))
+    return Processor(detector=make_detector(dspec), pipeline=build.make_pipeline(pspec))
 
 
 def owner_prefixes(pr, info, seen):
-    if info["cls"] == "detector-field":
+    if info["cls"] == SUBFIELD:
+        box = sub_container(pr, info)
+        return (seen.get(id(box)) if box is not None else None), None, None
+    if info["cls"] in DET:
         return seen.get(id(getattr(pr.detector, info["sec"]))), None, None
     m = find_model(pr.pipeline, info["group"], info["model"])
     if info["cls"] == "enabled-flag":
@@ -830,6 +925,8 @@ def check_assignment(rec, pr, kind, key, info, given, convert, case, index, nati
     rec.count("valid_set_applied")
     if cls == ENTRY:
         rec.count("entry_set_applied")
+    if cls == SUBFIELD:
+        rec.count("subfield_set_applied")
     ok = True
 
     # (1) the value that is now stored (read through the public objects)
@@ -846,6 +943,8 @@ def check_assignment(rec, pr, kind, key, info, given, convert, case, index, nati
     d = [p for p in set(s0) | set(s1) if s0.get(p) != s1.get(p)]
     rec.count("struct_diffs_checked")
     unchanged_value = judge_value(old, "exact", [new]) and type(old) is type(new)
+    # a field re-assigned as a whole from / to a structured value: the attribute lists below the owner follow
+    deep_ok = cls == "detector-field" and (is_structured(old) or is_structured(new))
     if owner is None:
         rec.count("owner_not_in_snapshot")
     else:
@@ -862,7 +961,7 @@ def check_assignment(rec, pr, kind, key, info, given, convert, case, index, nati
                 bad.append(("changed-outside-setting", p))
             elif token is not None and not below_leaf:
                 bad.append(("new-attribute" if p.endswith(("/<attrs>", "/<keys>")) else "changed-outside-setting", p))
-            elif p.endswith(("/<attrs>", "/<keys>")) and not below_leaf:
+            elif p.endswith(("/<attrs>", "/<keys>")) and not below_leaf and not (deep_ok and p != owner + "/<attrs>"):
                 bad.append(("new-attribute", p))
         for what, p in bad[:3]:
             report(rec, f"{tag}:{what}", f"set({key!r}, {given!r}): {p}: {s0.get(p, '<absent>')} -> {s1.get(p, '<absent>')}",
@@ -909,7 +1008,10 @@ def phase_direct_valid(rec, rng, kind, dspec, pspec, vkeys, case, index):
         if info["cls"] == ENTRY and entry_container(pr, info) is None:
             pr = make_processor(dspec, pspec)  # an earlier assignment replaced the dictionary that held this entry
             rec.count("entry_key_fresh_processor")
-        if info["cls"] == "detector-field":
+        if info["cls"] == SUBFIELD and sub_container(pr, info) is None:
+            pr = make_processor(dspec, pspec)  # an earlier assignment replaced the structured value as a whole
+            rec.count("subfield_key_fresh_processor")
+        if info["cls"] in DET:
             given, native = gen_field_value(rng, info["spec"])
         elif info["cls"] == "enabled-flag":
             given = rng.choice([True, False, "True", "False", 0, 1, "0", "1"])
@@ -1065,7 +1167,7 @@ def settings_objects(detector, pipeline) -> dict:
 
 
 def baseline_fields(dspec) -> dict:
-    return {k: norm(v) for k, v in read_fields(build.make_detector(dspec)).items()}
+    return {k: norm(v) for k, v in read_fields(make_detector(dspec)).items()}
 
 
 def events_vs_expected(events, pspec_expected, base_fields, allowed_fields, field_key=None, field_alts=None,
@@ -1113,7 +1215,7 @@ def run_with_override(rec, entry, dspec, pspec, key, value, index):
     exc = None
     try:
         if entry == "override":
-            det, pipe = build.make_detector(dspec), build.make_pipeline(pspec)
+            det, pipe = make_detector(dspec), build.make_pipeline(pspec)
             s0 = snapshot.snap(settings_objects(det, pipe))
             try:
                 pyxel.run_mode(mode=Exposure(readout=Readout(times=[1.0])), detector=det, pipeline=pipe,
@@ -1135,13 +1237,17 @@ def run_with_override(rec, entry, dspec, pspec, key, value, index):
 
 def phase_run_valid(rec, rng, kind, dspec, pspec, vkeys, case, index):
     base = baseline_fields(dspec)
-    keys = [k for k in vkeys if not k.endswith((".row", ".col")) or vkeys[k]["cls"] != "detector-field"]
+    keys = [k for k in vkeys if not k.endswith((".row", ".col")) or vkeys[k]["cls"] not in DET]
     for entry in ("override", "cli"):
-        for key in rng.sample(keys, min(3, len(keys))):
+        picked = rng.sample(keys, min(3, len(keys)))
+        subkeys = [k for k in keys if vkeys[k]["cls"] == SUBFIELD]
+        if subkeys and rng.random() < 0.5 and not any(k in subkeys for k in picked):
+            picked[0] = rng.choice(subkeys)
+        for key in picked:
             info = vkeys[key]
             cls = info["cls"]
             native = True
-            if cls == "detector-field":
+            if cls in DET:
                 given, native = gen_field_value(rng, info["spec"])
             elif cls == "enabled-flag":
                 given = rng.choice([True, False, "True", "False", 0, 1])
@@ -1171,7 +1277,7 @@ def phase_run_valid(rec, rng, kind, dspec, pspec, vkeys, case, index):
             ps2 = copy.deepcopy(pspec)
             kw = {}
             allowed = set()
-            if cls == "detector-field":
+            if cls in DET:
                 allowed = allowed_public(kind, key, info, set(base))
                 kw = {"field_key": key, "field_alts": alts}
             else:
@@ -1249,7 +1355,7 @@ def phase_run_invalid(rec, rng, kind, dspec, pspec, bad_keys, case, index, with_
                     else:
                         obs = Observation(parameters=[ParameterValues(key=key, values=values)], readout=Readout(times=[1.0]),
                                           with_dask=entry == "obs_dask")
-                        tree = pyxel.run_mode(mode=obs, detector=build.make_detector(dspec), pipeline=build.make_pipeline(pspec))
+                        tree = pyxel.run_mode(mode=obs, detector=make_detector(dspec), pipeline=build.make_pipeline(pspec))
                         if entry == "obs_dask":
                             tree.load()
                 except Exception as e:  # noqa: BLE001
@@ -1300,7 +1406,7 @@ def run_calibration(rec, dspec, pspec, key, where):
                           algorithm=Algorithm(type="sade", generations=1, population_size=8), parameters=params,
                           readout=Readout(), result_type="image", result_fit_range=(0, rows, 0, cols),
                           target_fit_range=(0, rows, 0, cols), num_islands=1, num_evolutions=1, pygmo_seed=1, **kw)
-        pyxel.run_mode(mode=cal, detector=build.make_detector(dspec), pipeline=build.make_pipeline(pspec))
+        pyxel.run_mode(mode=cal, detector=make_detector(dspec), pipeline=build.make_pipeline(pspec))
     except Exception as e:  # noqa: BLE001
         exc = e
     return exc, probes.events()
@@ -1349,7 +1455,7 @@ def phase_sweeps(rec, rng, kind, dspec, pspec, vkeys, case, index):
             else:
                 obs = Observation(parameters=[ParameterValues(key=p["key"], values=p["values"]) for p in params],
                                   readout=Readout(times=[1.0]), mode=mode, with_dask=dask)
-                tree = pyxel.run_mode(mode=obs, detector=build.make_detector(dspec), pipeline=build.make_pipeline(pspec),
+                tree = pyxel.run_mode(mode=obs, detector=make_detector(dspec), pipeline=build.make_pipeline(pspec),
                                       with_inherited_coords=True)
                 if dask:
                     tree.load()
@@ -1375,7 +1481,7 @@ def gen_point_value(rng, info, avoid=(), shape=None):
     shape: 'int' | 'float' | 'text' for an argument (one axis of a sweep holds one kind of value)."""
     shape = shape or rng.choice(["int", "float", "text"])
     for _ in range(20):
-        if info["cls"] == "detector-field":
+        if info["cls"] in DET:
             typ, lo, hi = info["spec"]
             if typ == "int":
                 v = rng.randint(lo, hi)
@@ -1415,7 +1521,7 @@ def expected_pspec(pspec, vkeys, assignments) -> dict:
     ps2 = copy.deepcopy(pspec)
     for key, value in assignments.items():
         info = vkeys[key]
-        if info["cls"] == "detector-field":
+        if info["cls"] in DET:
             continue
         for m in ps2[info["group"]]:
             if m["name"] == info["model"]:
@@ -1500,6 +1606,55 @@ def phase_copies(rec, rng, kind, dspec, pspec, vkeys, case, index):
             rec.observe("copy_key_classes", "+".join(sorted({vkeys[k]["cls"] for k in pt})))
 
 
+def judge_sweep_runs(rec, tag, kind, pspec, vkeys, base, points, events, dask, params, c, index, lazy=False) -> bool:
+    """Every pipeline of a sweep (the probe calls grouped by detector object) must have seen the configuration `pspec`
+    + exactly one point of `points`; on the sequential path every point exactly once."""
+    runs = {}
+    for ev in events:
+        runs.setdefault(ev["det"], []).append(ev)
+    todo = list(range(len(points)))
+    ok = True
+    for run in runs.values():
+        hit, why = None, None
+        # the dask path may run a point once more (to learn the layout of a result): there every pipeline must be
+        # some point of the sweep; on the sequential path every point is run exactly once
+        for n in todo + ([n for n in range(len(points)) if n not in todo] if dask else []):
+            pt = points[n]
+            allowed, problems = set(), []
+            for k, v in pt.items():
+                if vkeys[k]["cls"] in DET:
+                    allowed |= allowed_public(kind, k, vkeys[k], set(base))
+                    problems += [("addressed-field-wrong", f"{k}: saw {ev['fields'].get(k)!r}, point {v!r}")
+                                 for ev in run if not same(ev["fields"].get(k), v)]
+            ps2 = expected_pspec(pspec, vkeys, pt)
+            addressed = {}
+            for k in pt:
+                info = vkeys[k]
+                if info["cls"] not in DET:
+                    m2 = [m for m in ps2[info["group"]] if m["name"] == info["model"]][0]
+                    addressed[(info["group"], info["model"], info["arg"])] = [m2["arguments"][info["arg"]]]
+            problems += events_vs_expected(run, ps2, base, allowed, addressed=addressed)
+            if not problems:
+                hit = n
+                break
+            why = why or problems
+        if hit is None:
+            report(rec, f"{tag}:pipeline-matches-no-point", f"a pipeline of the sweep {params!r} saw settings that are no "
+                   f"remaining point of it, e.g. {why[:2] if why else 'more pipelines than points'}", c, index)
+            ok = False
+        elif hit in todo:
+            todo.remove(hit)
+        else:
+            rec.count("sweep_valid_dask_point_run_again")
+    if todo and ok and lazy:
+        rec.count("sweep_valid_lazy_result_not_loaded")  # pyxel.run does not hand out the lazy result
+    elif todo and ok:
+        report(rec, f"{tag}:point-not-run", f"sweep {params!r}: {len(runs)} pipelines, points never seen: "
+               f"{[points[n] for n in todo][:3]}", c, index)
+        ok = False
+    return ok
+
+
 def phase_sweep_valid(rec, rng, kind, dspec, pspec, vkeys, case, index):
     """An observation over existing settings of enabled models / of the detector: every pipeline of the sweep must see
     the configuration + exactly its own point, every point exactly once, and the objects handed in keep their settings."""
@@ -1512,7 +1667,7 @@ def phase_sweep_valid(rec, rng, kind, dspec, pspec, vkeys, case, index):
         if info["cls"] in ("model-argument", ENTRY):
             if (info["group"], info["model"]) in enabled and info["arg"] not in MAPPING_NAMES:
                 cands.append(k)
-        elif info["cls"] == "detector-field" and info["spec"][0] == "float" and info["field"] not in APD_LINKED \
+        elif info["cls"] in DET and (info["spec"][0] == "float" or info["cls"] == SUBFIELD) and info["field"] not in APD_LINKED \
                 and info["field"] in dspec[info["sec"]]:  # a field the configuration specifies
             cands.append(k)
     base = baseline_fields(dspec)
@@ -1542,7 +1697,7 @@ def phase_sweep_valid(rec, rng, kind, dspec, pspec, vkeys, case, index):
                                                               "parameters": params}})
                 pyxel.run(write_yaml(rec, f"sweepv_{index}.yaml", doc))
             else:
-                det, pipe = build.make_detector(dspec), build.make_pipeline(pspec)
+                det, pipe = make_detector(dspec), build.make_pipeline(pspec)
                 before = view(det, pipe)
                 obs = Observation(parameters=[ParameterValues(key=p["key"], values=p["values"]) for p in params],
                                   readout=Readout(times=[1.0]), mode=mode, with_dask=dask)
@@ -1572,49 +1727,8 @@ def phase_sweep_valid(rec, rng, kind, dspec, pspec, vkeys, case, index):
             else:
                 report(rec, f"{tag}:refused", f"{params!r}: {type(exc).__name__}: {str(exc)[:200]}", c, index)
             continue
-        runs = {}
-        for ev in events:
-            runs.setdefault(ev["det"], []).append(ev)
-        todo = list(range(len(points)))
-        ok = True
-        for run in runs.values():
-            hit, why = None, None
-            # the dask path may run a point once more (to learn the layout of a result): there every pipeline must be
-            # some point of the sweep; on the sequential path every point is run exactly once
-            for n in todo + ([n for n in range(len(points)) if n not in todo] if dask else []):
-                pt = points[n]
-                allowed, problems = set(), []
-                for k, v in pt.items():
-                    if vkeys[k]["cls"] == "detector-field":
-                        allowed |= allowed_public(kind, k, vkeys[k], set(base))
-                        problems += [("addressed-field-wrong", f"{k}: saw {ev['fields'].get(k)!r}, point {v!r}")
-                                     for ev in run if not same(ev["fields"].get(k), v)]
-                ps2 = expected_pspec(pspec, vkeys, pt)
-                addressed = {}
-                for k in pt:
-                    info = vkeys[k]
-                    if info["cls"] != "detector-field":
-                        m2 = [m for m in ps2[info["group"]] if m["name"] == info["model"]][0]
-                        addressed[(info["group"], info["model"], info["arg"])] = [m2["arguments"][info["arg"]]]
-                problems += events_vs_expected(run, ps2, base, allowed, addressed=addressed)
-                if not problems:
-                    hit = n
-                    break
-                why = why or problems
-            if hit is None:
-                report(rec, f"{tag}:pipeline-matches-no-point", f"a pipeline of the sweep {params!r} saw settings that are no "
-                       f"remaining point of it, e.g. {why[:2] if why else 'more pipelines than points'}", c, index)
-                ok = False
-            elif hit in todo:
-                todo.remove(hit)
-            else:
-                rec.count("sweep_valid_dask_point_run_again")
-        if todo and ok and via_yaml and dask:
-            rec.count("sweep_valid_lazy_result_not_loaded")  # pyxel.run does not hand out the lazy result
-        elif todo and ok:
-            report(rec, f"{tag}:point-not-run", f"sweep {params!r}: {len(runs)} pipelines, points never seen: "
-                   f"{[points[n] for n in todo][:3]}", c, index)
-            ok = False
+        ok = judge_sweep_runs(rec, tag, kind, pspec, vkeys, base, points, events, dask, params, c, index,
+                              lazy=via_yaml and dask)
         if before is not None and after is not None:
             moved = sorted(k for k in set(before) | set(after) if before.get(k) != after.get(k))
             if moved:
@@ -1626,6 +1740,125 @@ def phase_sweep_valid(rec, rng, kind, dspec, pspec, vkeys, case, index):
             rec.observe("sweep_valid_key_classes", "+".join(sorted({vkeys[k]["cls"] for k in swept})))
 
 
+# ------------------------------------------------------------------ one Observation object, several runs
+def phase_obs_history(rec, rng, kind, dspec, pspec, vkeys, case, index):
+    """A session: ONE Observation object (sweeping one model argument) is validated / run 2-4 times while the
+    configuration changes between the runs -- the swept model is switched off or on through its `enabled` key on the
+    very objects of the previous run, or another pipeline is handed in where the model or the argument is absent.
+    Every run is judged against the configuration it was started with, whatever the object has seen before: a declared
+    argument of an enabled model is swept (every point seen), everything else is refused before any model runs."""
+    import pyxel
+    from pyxel.exposure import Readout
+    from pyxel.observation import Observation, ParameterValues
+    from pyxel.pipelines import Processor
+    argkeys = [k for k, info in vkeys.items() if info["cls"] == "model-argument" and info["arg"] not in MAPPING_NAMES]
+    if not argkeys:
+        return
+    key = rng.choice(argkeys)
+    info = vkeys[key]
+    g, name, arg = info["group"], info["model"], info["arg"]
+    flag_key = f"pipeline.{g}.{name}.enabled"
+    vals, shape = [], rng.choice(["int", "float", "text"])
+    for _ in range(rng.randint(2, 3)):
+        vals.append(gen_point_value(rng, info, avoid=vals, shape=shape))
+    points = [{key: v} for v in vals]
+    dask = rng.random() < 0.4
+    path = "dask" if dask else "seq"
+    mode = rng.choice(["product", "sequential"])
+    params = [{"key": key, "values": vals}]
+    obs = Observation(parameters=[ParameterValues(key=key, values=list(vals))], readout=Readout(times=[1.0]), mode=mode,
+                      with_dask=dask)
+    cur = copy.deepcopy(pspec)  # the configuration of the session objects (followed by the reference model)
+    det, pipe = make_detector(dspec), build.make_pipeline(cur)
+    base = baseline_fields(dspec)
+
+    def model_of(ps):
+        return [m for m in ps.get(g, []) if m["name"] == name]
+
+    n_steps = rng.randint(2, 4)
+    # the first run of half of the sessions is a good one (the usual way into such a session)
+    if rng.random() < 0.5 and not model_of(cur)[0]["enabled"]:
+        Processor(detector=det, pipeline=pipe).set(flag_key, True)
+        model_of(cur)[0]["enabled"] = True
+    history, accepted_before, refused_before = [], False, False
+    for step in range(n_steps):
+        op = "as-configured" if step == 0 else rng.choice(["toggle", "toggle", "toggle", "same", "model-absent",
+                                                            "argument-undeclared"])
+        ps_step, d_step, p_step = cur, det, pipe
+        if op == "toggle":
+            new_flag = not model_of(cur)[0]["enabled"]
+            how = rng.choice(["key", "attribute"])
+            if how == "key":
+                Processor(detector=det, pipeline=pipe).set(flag_key, new_flag)
+            else:
+                find_model(pipe, g, name).enabled = new_flag
+            model_of(cur)[0]["enabled"] = new_flag
+            op = f"switch-{'on' if new_flag else 'off'}:{how}"
+        elif op in ("model-absent", "argument-undeclared"):  # another pipeline for this run only
+            ps_step = copy.deepcopy(cur)
+            if op == "model-absent":
+                ps_step[g] = [m for m in ps_step[g] if m["name"] != name]
+                if not ps_step[g] and len(ps_step) > 1:
+                    del ps_step[g]
+            else:
+                del model_of(ps_step)[0]["arguments"][arg]
+            d_step, p_step = make_detector(dspec), build.make_pipeline(ps_step)
+        ms = model_of(ps_step)
+        what = ("absent-model" if not ms else "undeclared" if arg not in ms[0]["arguments"] else
+                "disabled" if not ms[0]["enabled"] else None)
+        entry = rng.choice(["run", "run", "validate"])
+        history.append({"op": op, "entry": entry, "expected": what or "swept"})
+        c = dict(case, entry=f"observation:{path}:reused-object", mode=mode, parameters=params, history=list(history))
+        rec.case(["obs-history", path, mode, params, [(h["op"], h["entry"]) for h in history], kind], True, sample=c)
+        probes.reset()
+        exc = None
+        try:
+            if entry == "validate":
+                obs.validate_steps(Processor(detector=d_step, pipeline=p_step))
+            else:
+                tree = pyxel.run_mode(mode=obs, detector=d_step, pipeline=p_step, with_inherited_coords=True)
+                if dask:
+                    tree.load()
+        except Exception as e:  # noqa: BLE001
+            exc = e
+        events = probes.events()
+        rec.count("probe_events", len(events))
+        tag = f"C08:observation-{path}:reused-observation"
+        hist = " -> ".join(f"{h['op']}/{h['entry']}" for h in history)
+        if what is not None:
+            if exc is None or events:
+                report(rec, f"{tag}:sweep-of-{what}-argument:not-an-error",
+                       f"run {step + 1} of one Observation object ({hist}): sweep of {key!r} ({what} in the configuration of "
+                       f"this run): exception={type(exc).__name__ if exc else None}, {len(events)} model calls", c, index)
+            else:
+                rec.count("obs_reuse_invalid_rejected")
+                rec.count(f"obs_reuse_{what.replace('-', '_')}_rejected")
+                if accepted_before:
+                    rec.count("obs_reuse_refused_after_accepted")
+            refused_before = True
+            continue
+        if exc is not None:
+            if events:
+                report(rec, f"{tag}:valid-sweep:failed-after-models-ran", f"run {step + 1} ({hist}) {params!r}: "
+                       f"{type(exc).__name__}: {str(exc)[:200]}", c, index)
+            else:
+                report(rec, f"{tag}:valid-sweep:refused", f"run {step + 1} of one Observation object ({hist}): the sweep of "
+                       f"{key!r} is valid for the configuration of this run: {type(exc).__name__}: {str(exc)[:200]}", c, index)
+            continue
+        ok = True
+        if entry == "run":
+            ok = judge_sweep_runs(rec, f"{tag}:valid-sweep", kind, ps_step, vkeys, base, points, events, dask, params, c, index)
+        elif events:
+            report(rec, f"{tag}:validation-ran-models", f"validate_steps started {len(events)} model calls ({hist})", c, index)
+            ok = False
+        if ok:
+            rec.count("obs_reuse_valid_accepted")
+            if refused_before:
+                rec.count("obs_reuse_accepted_after_refused")
+        accepted_before = True
+    rec.observe("obs_history_lengths", n_steps)
+
+
 # ------------------------------------------------------------------ driver
 def run_case(rec, i, spec):
     rng = rec.rng(i)
@@ -1635,7 +1868,16 @@ def run_case(rec, i, spec):
     pspec = gen_pipeline(rng, mapping_names=(i % 3 == 0), shared_names=shared)
     if shared and len({m["name"] for ms in pspec.values() for m in ms}) < sum(len(ms) for ms in pspec.values()):
         rec.count("shared_name_pipelines")
-    vkeys = valid_keys(kind, pspec)
+    # layout of the environment: wavelength not given / one value / multi-wavelength (a structured value)
+    layout = rng.choice(["unset", "plain", "structured", "structured"])
+    if layout == "plain":
+        dspec["environment"]["wavelength"] = round(rng.uniform(200.0, 1500.0), 1)
+    elif layout == "structured":
+        dspec["environment"]["wavelength"] = {"cut_on": round(rng.uniform(150.0, 450.0), 1),
+                                              "cut_off": round(rng.uniform(650.0, 1900.0), 1),
+                                              "resolution": rng.randint(2, 40)}
+    rec.observe("field_layouts", f"environment.wavelength:{layout}")
+    vkeys = valid_keys(kind, pspec, dspec)
     case = {"detector": dspec, "pipeline": pspec}
     rec.observe("kinds", kind)
     rec.observe("n_valid_keys", len(vkeys))
@@ -1649,6 +1891,7 @@ def run_case(rec, i, spec):
     phase_sweeps(rec, rng, kind, dspec, pspec, vkeys, case, i)
     phase_copies(rec, rng, kind, dspec, pspec, vkeys, case, i)
     phase_sweep_valid(rec, rng, kind, dspec, pspec, vkeys, case, i)
+    phase_obs_history(rec, rng, kind, dspec, pspec, vkeys, case, i)
 
 
 def warm_up():
